@@ -1,3 +1,91 @@
 import Holpy.Common.Sexp
-/- stub: replaced when the C16 model is built -/
-def main : IO Unit := Holpy.lineLoop (fun _ => "bad-op")
+import Holpy.C16.Model
+/-
+Line protocol for the C16 model (one s-expression in, one out):
+  (omega FUEL ROWS)          -> (sat ((var val) ...) W) | (contr DERIV C) | noconcl | (error KIND)
+                                W = checkWitness ROWS store, C = checkDeriv ROWS DERIV
+  (witness ROWS V)           -> T | F          checkWitness
+  (witnessq ROWS P Q)        -> T | F          checkWitnessQ (x_i = P_i / Q)
+  (farkas ROWS COEFFS)       -> T | F          checkFarkas
+  (deriv ROWS DERIV)         -> (T|F ROW) | (F none)    checkDeriv and the row the derivation proves
+  (combine real|dark I F1 F2)-> ROW | none     the translated combine_*_factoid
+ROWS = (ROW ...), ROW = (c1 ... cn c0), DERIV = (asm ROW) | (rc I D D) | (gcd D) | (dc D D)
+-/
+open Holpy Holpy.C16
+
+namespace Holpy.C16.Driver
+
+def intsOf (s : Sexp) : Option (List Int) := do (← s.toList?).mapM Sexp.toInt?
+def rowsOf (s : Sexp) : Option (List Row) := do (← s.toList?).mapM intsOf
+
+partial def derivOf : Sexp → Option Deriv
+  | .list [.atom "asm", r] => do some (.asm (← intsOf r))
+  | .list [.atom "rc", i, a, b] => do some (.realCombine (← i.toNat?) (← derivOf a) (← derivOf b))
+  | .list [.atom "gcd", a] => do some (.gcdCheck (← derivOf a))
+  | .list [.atom "dc", a, b] => do some (.directContr (← derivOf a) (← derivOf b))
+  | _ => none
+
+def rowTo (r : Row) : Sexp := .list (r.map Sexp.ofInt)
+
+def derivTo : Deriv → Sexp
+  | .asm r => .list [.atom "asm", rowTo r]
+  | .realCombine i a b => .list [.atom "rc", Sexp.ofNat i, derivTo a, derivTo b]
+  | .gcdCheck a => .list [.atom "gcd", derivTo a]
+  | .directContr a b => .list [.atom "dc", derivTo a, derivTo b]
+
+def errTo : Err → String
+  | .assertion => "assertion"
+  | .value => "value"
+  | .type => "type"
+  | .fuel => "fuel"
+
+def storeList (s : Store) (n : Nat) : List Int := (List.range n).map s.get
+
+def handle (line : String) : String :=
+  match Sexp.parse line with
+  | some (.list [.atom "omega", fuel, rows]) =>
+    match fuel.toNat?, rowsOf rows with
+    | some f, some rs =>
+      match solveMatrix f rs with
+      | .sat s =>
+        let n := (rs.headD []).length - 1
+        toString (Sexp.list [.atom "sat", .list (s.map fun p => .list [Sexp.ofNat p.1, Sexp.ofInt p.2]),
+          Sexp.ofBool (checkWitness rs (storeList s n))])
+      | .contr d => toString (Sexp.list [.atom "contr", derivTo d, Sexp.ofBool (checkDeriv rs d)])
+      | .noConcl => "noconcl"
+      | .error e => toString (Sexp.list [.atom "error", .atom (errTo e)])
+    | _, _ => "bad-op"
+  | some (.list [.atom "witness", rows, v]) =>
+    match rowsOf rows, intsOf v with
+    | some rs, some v => toString (Sexp.ofBool (checkWitness rs v))
+    | _, _ => "bad-op"
+  | some (.list [.atom "witnessq", rows, p, q]) =>
+    match rowsOf rows, intsOf p, q.toInt? with
+    | some rs, some p, some q => toString (Sexp.ofBool (checkWitnessQ rs p q))
+    | _, _, _ => "bad-op"
+  | some (.list [.atom "farkas", rows, cs]) =>
+    match rowsOf rows, intsOf cs with
+    | some rs, some cs => toString (Sexp.ofBool (checkFarkas rs cs))
+    | _, _ => "bad-op"
+  | some (.list [.atom "deriv", rows, d]) =>
+    match rowsOf rows, derivOf d with
+    | some rs, some d =>
+      match evalDeriv rs d with
+      | some r => toString (Sexp.list [Sexp.ofBool (checkDeriv rs d), rowTo r])
+      | none => "(F none)"
+    | _, _ => "bad-op"
+  | some (.list [.atom "combine", .atom kind, i, f1, f2]) =>
+    match i.toInt?, intsOf f1, intsOf f2 with
+    | some i, some a, some b =>
+      let r := if kind == "real" then Gen.combine_real_factoid i a b
+               else if kind == "dark" then Gen.combine_dark_factoid i a b else none
+      if kind != "real" && kind != "dark" then "bad-op" else
+      match r with
+      | some r => toString (rowTo r)
+      | none => "none"
+    | _, _, _ => "bad-op"
+  | _ => "bad-op"
+
+end Holpy.C16.Driver
+
+def main : IO Unit := Holpy.lineLoop Holpy.C16.Driver.handle
